@@ -237,13 +237,14 @@ def gen_random(n, seed, handler_style=False):
                     m |= 1 << (bl - 1)
                 lines.append("lq_push %s %d" % (hexs(rng.choice(pool)), m))
             elif r < 0.55:
-                lines.append("lq_tick %d" % rng.choice([0, 1, 1, deb - 1 if deb > 1 else 1, deb, deb + 1]))
+                lines.append("lq_tick %d" % rng.choice([0, 1, 1, min(deb, 90) - 1 if deb > 1 else 1, min(deb, 90), min(deb, 90) + 1]))
             elif r < 0.7:
                 lines.append("lq_head" if not handler_style else "lq_drain")
             elif r < 0.8:
                 lines.append("lq_pop" if not handler_style else "lq_drain")
             elif r < 0.87:
-                deb = rng.choice([0, 1, 2, 5, 7])
+                # (also intervals an administrator writes to mean "hold everything": a day, 2^31, the largest integer)
+                deb = rng.choice([0, 1, 2, 5, 7, 0, 1, 2, 5, 7, 86400, 2 ** 31, 2 ** 63 - 1])
                 lines.append("lq_redeb %d" % deb)
             elif r < 0.93:
                 lines.append("lq_reload %d" % rng.choice([0, 3]))
